@@ -334,7 +334,7 @@ func TestSeq(t *testing.T) {
 		return
 	}
 
-	n := common.EnvInt("VERIF_HISTORIES", 300)
+	n := common.EnvInt("VERIF_HISTORIES", 1000)
 	if common.Thorough() {
 		n = common.EnvInt("VERIF_HISTORIES", 6000)
 	}
